@@ -123,4 +123,155 @@ theorem cellOfPt_eq_iff {g : Geom α} (hcsz : 0 < g.csz) (hc : 0 < g.ncols) {c :
 
 end Weights
 
+/-! ### C. catchment cells against the coarse grid (exact arithmetic) -/
+
+section Catchment
+variable {α : Type} [Field α] [LinearOrder α] [IsStrictOrderedRing α] [FloorRing α]
+
+/-- the weight of a listed grid cell is `(csz_area/csz)²` times the number of catchment cells whose centre lies
+in the footprint of that grid cell -/
+theorem intersect_weight_counts_centres {coarse fine : Geom α} (hcsz : 0 < coarse.csz) (hc : 0 < coarse.ncols)
+    {cells : List Int} (hcells : ∀ c ∈ cells, validCell fine.nrows fine.ncols c = true) {k : Int} {w : α}
+    (h : (k, w) ∈ cIntersect coarse fine.csz (cells.map (cell2coord fine))) :
+    w = (fine.csz / coarse.csz) ^ 2 *
+      ((cells.countP fun c => decide (InFootprint coarse k (getcoord fine c).1 (getcoord fine c).2) : Nat) : α) := by
+  have hk : k ∈ (cIntersect coarse fine.csz (cells.map (cell2coord fine))).map Prod.fst :=
+    List.mem_map.2 ⟨(k, w), h, rfl⟩
+  have hv := cIntersect_keys_valid _ _ _ k hk
+  rw [(cIntersect_weight h).1]
+  congr 2
+  rw [List.count_eq_countP, List.countP_map, List.countP_map]
+  apply List.countP_congr
+  intro c hcm
+  simp only [Function.comp, beq_iff_eq, decide_eq_true_eq]
+  unfold cell2coord
+  rw [if_pos (hcells c hcm)]
+  exact cellOfPt_eq_iff hcsz hc hv _ _
+
+/-- area conservation: weights times grid-cell area sum to the area of the catchment cells whose centre lies in
+the extent of the grid -/
+theorem intersect_area_conserved {coarse fine : Geom α} (hcsz : 0 < coarse.csz)
+    {cells : List Int} (hcells : ∀ c ∈ cells, validCell fine.nrows fine.ncols c = true) :
+    ((cIntersect coarse fine.csz (cells.map (cell2coord fine))).map fun kw => kw.2 * (coarse.csz * coarse.csz)).sum =
+      ((cells.countP fun c => decide (InExtent coarse (getcoord fine c).1 (getcoord fine c).2) : Nat) : α) *
+        (fine.csz * fine.csz) := by
+  rw [cIntersect_total hcsz.ne', List.countP_map]
+  congr 2
+  apply List.countP_congr
+  intro c hcm
+  simp only [Function.comp, decide_eq_true_eq]
+  unfold cell2coord
+  rw [if_pos (hcells c hcm)]
+  exact cellOfPt_nonneg_iff hcsz _ _
+
+/-- a catchment cell whose centre falls inside the grid is assigned to exactly one listed grid cell -/
+theorem centre_inside_listed_once {coarse fine : Geom α} (hcsz : 0 < coarse.csz) (hc : 0 < coarse.ncols)
+    {cells : List Int} {c : Int} (hcm : c ∈ cells) (hv : validCell fine.nrows fine.ncols c = true)
+    (hin : InExtent coarse (getcoord fine c).1 (getcoord fine c).2) :
+    ∃! k, k ∈ (cIntersect coarse fine.csz (cells.map (cell2coord fine))).map Prod.fst ∧
+      InFootprint coarse k (getcoord fine c).1 (getcoord fine c).2 := by
+  obtain ⟨hv0, hfp⟩ := coord2cell_of_inExtent hcsz hin
+  refine ⟨coord2cell coarse (getcoord fine c).1 (getcoord fine c).2, ⟨?_, hfp⟩, ?_⟩
+  · rw [cIntersect_mem_keys_iff]
+    refine ⟨(validCell_iff.1 hv0).1, cell2coord fine c, List.mem_map_of_mem hcm, ?_⟩
+    unfold cell2coord
+    rw [if_pos hv]
+    rfl
+  · rintro k ⟨hk, hkf⟩
+    have hvk := cIntersect_keys_valid _ _ _ k hk
+    exact (coord2cell_of_inFootprint hcsz hc hvk hkf).symm
+
+/-- a catchment cell whose centre falls outside the grid is counted for no listed cell -/
+theorem centre_outside_not_counted {coarse fine : Geom α} (hcsz : 0 < coarse.csz) (hc : 0 < coarse.ncols)
+    {cells : List Int} {c : Int}
+    (hout : ¬ InExtent coarse (getcoord fine c).1 (getcoord fine c).2) (k : Int)
+    (hk : k ∈ (cIntersect coarse fine.csz (cells.map (cell2coord fine))).map Prod.fst) :
+    ¬ InFootprint coarse k (getcoord fine c).1 (getcoord fine c).2 := fun hkf =>
+  hout (inExtent_of_inFootprint hcsz hc (cIntersect_keys_valid _ _ _ k hk) hkf)
+
+end Catchment
+
+/-! ### D. `Catchment.intersect`: lists, sub-grid, scatter (exact arithmetic) -/
+
+section Python
+variable {α : Type} [Field α] [LinearOrder α] [IsStrictOrderedRing α] [FloorRing α]
+
+/-- `intersect` fails (the `ValueError` of `np.min` on an empty array) exactly when no catchment-cell centre is
+accepted by the grid; it fails in no other way -/
+theorem intersect_error_iff (coarse fine : Geom α) (cells : List Int) (e : Err) :
+    intersect coarse fine cells = .error e ↔
+      e = .noOverlap ∧ ∀ c ∈ cells, cellOfPt coarse (cell2coord fine c) < 0 := by
+  constructor
+  · intro h
+    obtain ⟨he, hnil⟩ := intersect_eq_error h
+    refine ⟨he, fun c hc => ?_⟩
+    by_contra hge
+    have : cellOfPt coarse (cell2coord fine c) ∈
+        (cIntersect coarse fine.csz (cells.map (cell2coord fine))).map Prod.fst := by
+      rw [cIntersect_mem_keys_iff]
+      exact ⟨by omega, _, List.mem_map_of_mem hc, rfl⟩
+    rw [hnil] at this
+    cases this
+  · rintro ⟨rfl, hneg⟩
+    cases hres : intersect coarse fine cells with
+    | error e' => rw [(intersect_eq_error hres).1]
+    | ok a =>
+      obtain ⟨kw0, rest, heq, -⟩ := intersect_eq_ok hres
+      have : kw0.1 ∈ (cIntersect coarse fine.csz (cells.map (cell2coord fine))).map Prod.fst := by
+        rw [heq]; simp
+      obtain ⟨h0, p, hp, hpk⟩ := (cIntersect_mem_keys_iff _ _ _ _).1 this
+      obtain ⟨c, hc, rfl⟩ := List.mem_map.1 hp
+      have := hneg c hc
+      omega
+
+/-- the returned `idxcells`, `weights` are the kernel's lists: everything proved in parts A–C applies to them -/
+theorem intersect_lists {coarse fine : Geom α} {cells : List Int} {a : AreaGrid α}
+    (h : intersect coarse fine cells = .ok a) :
+    a.keys.zip a.weights = cIntersect coarse fine.csz (cells.map (cell2coord fine)) ∧
+      a.keys.length = a.weights.length ∧ a.keys ≠ [] := by
+  obtain ⟨kw0, rest, heq, hk, hw, -⟩ := intersect_eq_ok h
+  rw [hk, hw, heq]
+  exact ⟨zip_map_fst_snd _, by simp, by simp⟩
+
+/-- the sub-grid spans exactly the rows and columns of the listed cells: the bounds are attained and every
+listed cell is within them; the data array has that shape -/
+theorem intersect_subgrid_range {coarse fine : Geom α} {cells : List Int} {a : AreaGrid α}
+    (h : intersect coarse fine cells = .ok a) :
+    (∀ k ∈ a.keys, a.rowStart ≤ prow coarse k ∧ prow coarse k ≤ a.rowEnd ∧
+        a.colStart ≤ pcol coarse k ∧ pcol coarse k ≤ a.colEnd) ∧
+    (∃ k ∈ a.keys, prow coarse k = a.rowStart) ∧ (∃ k ∈ a.keys, prow coarse k = a.rowEnd) ∧
+    (∃ k ∈ a.keys, pcol coarse k = a.colStart) ∧ (∃ k ∈ a.keys, pcol coarse k = a.colEnd) ∧
+    a.nrows = a.rowEnd - a.rowStart + 1 ∧ a.ncols = a.colEnd - a.colStart + 1 ∧
+    a.data.length = a.nrows.toNat ∧ ∀ r ∈ a.data, r.length = a.ncols.toNat := by
+  obtain ⟨kw0, rest, -, hk, -, hrs, hre, hcs, hce, -, -, hnr, hnc, hd⟩ := intersect_eq_ok h
+  have mem_of : ∀ (f : Int → Int) (m : Int),
+      (m = f kw0.1 ∨ m ∈ rest.map fun kw => f kw.1) → ∃ k ∈ a.keys, f k = m := by
+    intro f m hm
+    rw [hk]
+    rcases hm with rfl | hm
+    · exact ⟨kw0.1, by simp, rfl⟩
+    · obtain ⟨kw, hkw, rfl⟩ := List.mem_map.1 hm
+      exact ⟨kw.1, by simp only [List.map_cons, List.mem_cons, List.mem_map]; right; exact ⟨kw, hkw, rfl⟩, rfl⟩
+  have s1 := listMin_spec (prow coarse kw0.1) (rest.map fun kw => prow coarse kw.1)
+  have s2 := listMax_spec (prow coarse kw0.1) (rest.map fun kw => prow coarse kw.1)
+  have s3 := listMin_spec (pcol coarse kw0.1) (rest.map fun kw => pcol coarse kw.1)
+  have s4 := listMax_spec (pcol coarse kw0.1) (rest.map fun kw => pcol coarse kw.1)
+  rw [← hrs] at s1; rw [← hre] at s2; rw [← hcs] at s3; rw [← hce] at s4
+  refine ⟨?_, mem_of (prow coarse) _ s1.1, mem_of (prow coarse) _ s2.1, mem_of (pcol coarse) _ s3.1,
+    mem_of (pcol coarse) _ s4.1, hnr, hnc, ?_, ?_⟩
+  · intro k hkm
+    rw [hk] at hkm
+    rcases List.mem_cons.1 hkm with rfl | hkm
+    · exact ⟨s1.2.1, s2.2.1, s3.2.1, s4.2.1⟩
+    · obtain ⟨kw, hkw, rfl⟩ := List.mem_map.1 hkm
+      exact ⟨s1.2.2 _ (List.mem_map.2 ⟨kw, hkw, rfl⟩), s2.2.2 _ (List.mem_map.2 ⟨kw, hkw, rfl⟩),
+        s3.2.2 _ (List.mem_map.2 ⟨kw, hkw, rfl⟩), s4.2.2 _ (List.mem_map.2 ⟨kw, hkw, rfl⟩)⟩
+  · rw [hd]; simp
+  · intro r hr
+    rw [hd] at hr
+    obtain ⟨i, -, rfl⟩ := List.mem_map.1 hr
+    simp
+
+end Python
+
 end HydroVerif.C16
